@@ -2,6 +2,7 @@ package rules
 
 import (
 	"go/ast"
+	"go/token"
 	"go/types"
 
 	"verif/mlbcheck/chk"
@@ -23,14 +24,18 @@ func init() {
 			"correctness of net.IPNet.Contains and ipaddr cursors, ipfamily.ForService.",
 		Run: runC02,
 		Mutants: []Mutant{
+			{Name: "same-length-prefixes-never-contained", File: "internal/config/config.go",
+				Old: "\tif ol == il && outer.IP.Equal(inner.IP) {\n\t\treturn true\n\t}\n", New: "", Expect: "CIDR-CONTAINS"},
+			{Name: "later-pool-replaces-candidate", File: "internal/allocator/allocator.go",
+				Old: "\t\tif primaryIP != nil && primaryAllocationCandidate == nil {", New: "\t\tif primaryIP != nil {", Expect: "FIRST-POOL-WINS"},
 			{Name: "getIPFromCIDR-drops-buggy-filter", File: "internal/allocator/allocator.go",
 				Old: "\t\tif avoidBuggyIPs && ipConfusesBuggyFirmwares(pos.IP) {\n\t\t\tcontinue\n\t\t}\n\t\tif a.checkSharing(svc, pos.IP.String(), ports, sk) != nil {",
 				New: "\t\tif a.checkSharing(svc, pos.IP.String(), ports, sk) != nil {", Expect: "FREE-IP"},
 			{Name: "fallback-includes-non-autoassign", File: "internal/allocator/allocator.go",
 				Old: "if !pool.AutoAssign || pool.ServiceAllocations != nil {", New: "if pool.ServiceAllocations != nil {", Expect: "FALLBACK-FILTER"},
 			{Name: "requested-ip-falls-through", File: "controller/service.go",
-				Old: "\t\tif err := c.ips.Assign(key, svc, desiredLbIPs, k8salloc.Ports(svc), SharingKey(svc), k8salloc.BackendKey(svc)); err != nil {\n\t\t\treturn nil, err\n\t\t}\n\n\t\t// Verify",
-				New: "\t\tif err := c.ips.Assign(key, svc, desiredLbIPs, k8salloc.Ports(svc), SharingKey(svc), k8salloc.BackendKey(svc)); err != nil {\n\t\t\treturn c.ips.Allocate(key, svc, serviceIPFamily, k8salloc.Ports(svc), SharingKey(svc), k8salloc.BackendKey(svc))\n\t\t}\n\n\t\t// Verify",
+				Old:    "\t\tif err := c.ips.Assign(key, svc, desiredLbIPs, k8salloc.Ports(svc), SharingKey(svc), k8salloc.BackendKey(svc)); err != nil {\n\t\t\treturn nil, err\n\t\t}\n\n\t\t// Verify",
+				New:    "\t\tif err := c.ips.Assign(key, svc, desiredLbIPs, k8salloc.Ports(svc), SharingKey(svc), k8salloc.BackendKey(svc)); err != nil {\n\t\t\treturn c.ips.Allocate(key, svc, serviceIPFamily, k8salloc.Ports(svc), SharingKey(svc), k8salloc.BackendKey(svc))\n\t\t}\n\n\t\t// Verify",
 				Expect: "REQUEST-IPS"},
 			{Name: "annotation-from-request", File: "controller/service.go",
 				Old: "svc.Annotations[AnnotationIPAllocateFromPool] = pool", New: "svc.Annotations[AnnotationIPAllocateFromPool] = valueForAnnotation(svc.Annotations, AnnotationAddressPool, DeprecatedAnnotationAddressPool)", Expect: "POOL-ANNOTATION"},
@@ -70,6 +75,43 @@ func runC02(p *chk.Prog, r *chk.Report) {
 	c02Requests(p, r)
 	c02Annotation(p, r)
 	c02FamilySelect(p, r)
+	c02FirstPoolWins(p, r)
+	cidrContainmentRule(p, r)
+}
+
+// c02FirstPoolWins: the pools are tried in priority order; a partial candidate (an allocation that serves only one
+// family) remembered for later must be the first such pool: it is stored only while its own slot is still empty.
+func c02FirstPoolWins(p *chk.Prog, r *chk.Report) {
+	x := r.Rule("FIRST-POOL-WINS", "B path", "in (*Allocator).findBestPoolForService every candidate variable that survives the loop over the (priority-sorted) pools is assigned the pool's allocation only while that same variable is still nil", 2)
+	f := need(x, p, allocPkg, "Allocator", "findBestPoolForService")
+	if f == nil {
+		return
+	}
+	g := f.Graph()
+	for _, rs := range f.RangeLoops(isParamIdx(f, 0)) {
+		for _, s := range g.Find(func(n ast.Node) bool {
+			as, ok := n.(*ast.AssignStmt)
+			if !ok || len(as.Lhs) != 1 || len(as.Rhs) != 1 || as.Tok != token.ASSIGN || !chk.InBody(rs, n) {
+				return false
+			}
+			id, ok := as.Lhs[0].(*ast.Ident)
+			if !ok {
+				return false
+			}
+			o := f.ObjOf(id)
+			// declared outside the loop, of pointer type: a candidate that outlives the iteration
+			if o == nil || (o.Pos() >= rs.Pos() && o.Pos() <= rs.End()) {
+				return false
+			}
+			_, isPtr := o.Type().Underlying().(*types.Pointer)
+			return isPtr
+		}) {
+			as := s.Node.(*ast.AssignStmt)
+			o := f.ObjOf(as.Lhs[0])
+			x.Check("findBestPoolForService:"+o.Name()+":kept-from-first-pool", s.Pos(), g.Dominated(s, g.GExprNil(true, f.IsObj(o))), "",
+				"the candidate "+o.Name()+" can be overwritten by a later (lower-priority) pool although an earlier pool already provided one")
+		}
+	}
 }
 
 func c02FreeIP(p *chk.Prog, r *chk.Report) {
@@ -454,7 +496,9 @@ func c02Annotation(p *chk.Prog, r *chk.Report) {
 		x.Check("converge:annotation-nonempty", ws[0].Pos(), g.Dominated(ws[0], g.GPat(false, `P == ""`, chk.H("P", isPool))), "", "the pool annotation can be written for a service without an owning pool")
 	}
 	y := r.Rule("REQUEST-CHANGE", "B path", "in controller.convergeBalancer a requested pool that differs from the owning pool, and requested addresses that differ from the held ones, always reach clearServiceState(key, svc) and reset the held addresses before allocation", 2)
-	clr := func(n ast.Node) bool { return f.ContainsPat("RECV.clearServiceState(K, S)", chk.H("K", key), chk.H("S", svc))(n) }
+	clr := func(n ast.Node) bool {
+		return f.ContainsPat("RECV.clearServiceState(K, S)", chk.H("K", key), chk.H("S", svc))(n)
+	}
 	dpool := definedBy(g, "valueForAnnotation(S.Annotations, A, B)", chk.H("S", svc), chk.H("A", constStr(f, "metallb.io/address-pool")), chk.H("B", constStr(f, "metallb.universe.tf/address-pool")))
 	var lbIPs types.Object
 	for _, s := range g.FindPat("RECV.ips.Assign(K, S, IPS, ETC)", chk.H("K", key)) {
@@ -483,10 +527,20 @@ func c02FamilySelect(p *chk.Prog, r *chk.Report) {
 	if f != nil {
 		g := f.Graph()
 		fam := isParamIdx(f, 0)
+		// the address of a family: a.getIPForFamily(ipfamily.X), or the field that getIPForFamily yields for X
 		fromFam := func(name string) func(ast.Expr) bool {
-			return definedBy(g, "RECV.getIPForFamily(F)", chk.H("RECV", isRecv(f)), chk.H("F", isObjNamed(f, "internal/ipfamily."+name)))
+			viaGet := definedBy(g, "RECV.getIPForFamily(F)", chk.H("RECV", isRecv(f)), chk.H("F", isObjNamed(f, "internal/ipfamily."+name)))
+			fld := map[string]string{"IPv4": "IPV4", "IPv6": "IPV6"}[name]
+			return func(e ast.Expr) bool {
+				if viaGet(e) {
+					return true
+				}
+				sel, ok := ast.Unparen(f.Resolve(e)).(*ast.SelectorExpr)
+				return ok && sel.Sel.Name == fld && isRecv(f)(sel.X)
+			}
 		}
-		fromAny := definedBy(g, "RECV.getIPForFamily(F)", chk.H("RECV", isRecv(f)))
+		viaGetAny := definedBy(g, "RECV.getIPForFamily(F)", chk.H("RECV", isRecv(f)))
+		fromAny := func(e ast.Expr) bool { return viaGetAny(e) || fromFam("IPv4")(e) || fromFam("IPv6")(e) }
 		req := g.GPat(true, "POL == R", chk.H("POL", isParamIdx(f, 1)), chk.H("R", constStr(f, "RequireDualStack")))
 		n := 0
 		for _, rt := range returnsOf(g) {
@@ -494,42 +548,48 @@ func c02FamilySelect(p *chk.Prog, r *chk.Report) {
 			if len(res) != 2 || !f.IsNilLit(res[1]) {
 				continue
 			}
-			lit, ok := ast.Unparen(res[0]).(*ast.CompositeLit)
-			if !ok {
-				x.Fail("select:return-shape", rt.Pos(), "a success return that is not a literal list of addresses")
-				continue
-			}
-			n++
-			tag := ""
-			for _, e := range lit.Elts {
-				tag += types.ExprString(e) + ","
-			}
-			good := true
-			for _, e := range lit.Elts {
-				if !fromAny(e) {
-					good = false
+			for _, form := range resultForms(g, f, rt, 0) {
+				var lit *ast.CompositeLit
+				if form.E != nil {
+					lit, _ = ast.Unparen(form.E).(*ast.CompositeLit)
 				}
-			}
-			x.Check("select:return["+tag+"]:source", rt.Pos(), good, "", "a returned address does not come from getIPForFamily of the receiver")
-			switch {
-			case g.Dominated(rt, g.GPat(true, "F == V", chk.H("F", fam), chk.H("V", isObjNamed(f, "internal/ipfamily.IPv4")))):
-				x.Check("select:return["+tag+"]:ipv4-service-gets-ipv4", rt.Pos(), len(lit.Elts) == 1 && fromFam("IPv4")(lit.Elts[0]), "", "an IPv4 service is given something other than the IPv4 address")
-			case g.Dominated(rt, g.GPat(true, "F == V", chk.H("F", fam), chk.H("V", isObjNamed(f, "internal/ipfamily.IPv6")))):
-				x.Check("select:return["+tag+"]:ipv6-service-gets-ipv6", rt.Pos(), len(lit.Elts) == 1 && fromFam("IPv6")(lit.Elts[0]), "", "an IPv6 service is given something other than the IPv6 address")
-			default:
-				nonNil := true
+				if lit == nil {
+					x.Fail("select:return-shape", rt.Pos(), "a success return that is not a literal list of addresses")
+					continue
+				}
+				at := form.At
+				n++
+				tag := ""
 				for _, e := range lit.Elts {
-					el := e
-					if !g.Dominated(rt, g.GPat(true, "E != nil", chk.H("E", func(y ast.Expr) bool { return f.SameExpr(y, el) }))) {
-						nonNil = false
+					tag += types.ExprString(e) + ","
+				}
+				good := true
+				for _, e := range lit.Elts {
+					if !fromAny(e) {
+						good = false
 					}
 				}
-				x.Check("select:return["+tag+"]:non-nil", rt.Pos(), nonNil, "", "a dual-stack selection can contain a missing (nil) address")
-				if len(lit.Elts) == 2 {
-					x.Check("select:return["+tag+"]:pair-is-v4-v6", rt.Pos(), fromFam("IPv4")(lit.Elts[0]) && fromFam("IPv6")(lit.Elts[1]), "", "a pair is not (IPv4, IPv6)")
-				}
-				if g.EdgeImpliesAny(req) && g.Dominated(rt, req) {
-					x.Check("select:return["+tag+"]:require-dual-is-pair", rt.Pos(), len(lit.Elts) == 2, "", "RequireDualStack can succeed with a single address")
+				x.Check("select:return["+tag+"]:source", at.Pos(), good, "", "a returned address does not come from getIPForFamily of the receiver")
+				switch {
+				case g.Dominated(at, g.GPat(true, "F == V", chk.H("F", fam), chk.H("V", isObjNamed(f, "internal/ipfamily.IPv4")))):
+					x.Check("select:return["+tag+"]:ipv4-service-gets-ipv4", at.Pos(), len(lit.Elts) == 1 && fromFam("IPv4")(lit.Elts[0]), "", "an IPv4 service is given something other than the IPv4 address")
+				case g.Dominated(at, g.GPat(true, "F == V", chk.H("F", fam), chk.H("V", isObjNamed(f, "internal/ipfamily.IPv6")))):
+					x.Check("select:return["+tag+"]:ipv6-service-gets-ipv6", at.Pos(), len(lit.Elts) == 1 && fromFam("IPv6")(lit.Elts[0]), "", "an IPv6 service is given something other than the IPv6 address")
+				default:
+					nonNil := true
+					for _, e := range lit.Elts {
+						el := e
+						if !g.Dominated(at, g.GPat(true, "E != nil", chk.H("E", func(y ast.Expr) bool { return f.SameExpr(y, el) }))) {
+							nonNil = false
+						}
+					}
+					x.Check("select:return["+tag+"]:non-nil", at.Pos(), nonNil, "", "a dual-stack selection can contain a missing (nil) address")
+					if len(lit.Elts) == 2 {
+						x.Check("select:return["+tag+"]:pair-is-v4-v6", at.Pos(), fromFam("IPv4")(lit.Elts[0]) && fromFam("IPv6")(lit.Elts[1]), "", "a pair is not (IPv4, IPv6)")
+					}
+					if g.EdgeImpliesAny(req) && g.Dominated(at, req) {
+						x.Check("select:return["+tag+"]:require-dual-is-pair", at.Pos(), len(lit.Elts) == 2, "", "RequireDualStack can succeed with a single address")
+					}
 				}
 			}
 		}
